@@ -185,75 +185,117 @@ def is_state_term(t):
     return all(is_state_term(x) for x in t[2:])
 
 
-def ev_state(t, M, path_holes=False):
-    """set of states of M satisfying the state-level term t (CTL-shaped)"""
-    k = t[0]
-    if k in ('hole', 'raw'):
-        a = hole_atom(t[1])
-        return frozenset(s for s in M.S if a in M.lab[s])
-    if k == 'atom':
-        return frozenset(s for s in M.S if t[1] in M.lab[s])
-    if k == 'bool':
-        return M.S if t[1] else frozenset()
-    if k == 'LNot':
-        return M.S - ev_state(t[1], M)
-    ks = t[2:]
-    if k == 'Not':
-        return M.S - ev_state(ks[0], M)
-    if k == 'Or':
-        r = frozenset()
+class Sem(object):
+    """CTL-shaped evaluation of a state-level term on M.
+    F is None: ordinary semantics.  F = list of state sets: fair semantics of
+    Clarke-Grumberg-Peled (quantifiers range over fair paths, an atom holds
+    where it labels the state and a fair path starts)."""
+
+    def __init__(self, M, F=None):
+        self.M = M
+        self.F = F
+        self.fair = None
+        if F is not None:
+            self.fair = self.fair_eg(M.S)
+
+    def eu(self, f, g):
+        M = self.M
+        return lfp(lambda Z: g | (f & M.pre(Z)))
+
+    def fair_eg(self, f):
+        M = self.M
+        if not self.F:
+            return gfp(lambda Z: f & M.pre(Z), M.S)
+
+        def step(Z):
+            r = f
+            for P in self.F:
+                r = r & M.pre(self.eu(f, Z & P))
+            return r
+        return gfp(step, M.S)
+
+    def state(self, t):
+        M = self.M
+        k = t[0]
+        if k in ('hole', 'raw'):
+            a = hole_atom(t[1])
+            return frozenset(s for s in M.S if a in M.lab[s])
+        if k == 'atom':
+            r = frozenset(s for s in M.S if t[1] in M.lab[s])
+            return r & self.fair if self.fair is not None else r
+        if k == 'bool':
+            return M.S if t[1] else frozenset()
+        if k == 'LNot':
+            return M.S - self.state(t[1])
+        ks = t[2:]
+        if k == 'Not':
+            return M.S - self.state(ks[0])
+        if k == 'Or':
+            r = frozenset()
+            for x in ks:
+                r |= self.state(x)
+            return r
+        if k == 'And':
+            r = M.S
+            for x in ks:
+                r &= self.state(x)
+            return r
+        if k == 'Imply':
+            return (M.S - self.state(ks[0])) | self.state(ks[1])
+        if k in ('A', 'E'):
+            return self.quant(k, ks[0])
+        raise NotEvaluable('path operator %s where a state formula is '
+                           'needed' % k)
+
+    def quant(self, q, p):
+        M = self.M
+        S = M.S
+        if q == 'A':
+            # A p == not E not p (also under fairness)
+            return S - self.quant('E', ('LNot', p))
+        p = push_neg(p)
+        k = p[0]
+        if is_state_term(p):
+            r = self.state(p)
+            # E p for a state formula p: p holds and a (fair) path starts
+            return r & self.fair if self.fair is not None else r
+        ks = p[2:]
+        if k == 'Or':
+            r = frozenset()
+            for x in ks:
+                r |= self.quant('E', x)
+            return r
+        if k == 'And':
+            st = [x for x in ks if is_state_term(x)]
+            pt = [x for x in ks if not is_state_term(x)]
+            if len(pt) == 1:
+                r = self.quant('E', pt[0])
+                for x in st:
+                    r &= self.state(x)
+                return r
+            raise NotEvaluable('E over a conjunction of path formulas')
+        if k not in TEMPORAL:
+            raise NotEvaluable('E over %s is not CTL-shaped' % k)
         for x in ks:
-            r |= ev_state(x, M)
-        return r
-    if k == 'And':
-        r = M.S
-        for x in ks:
-            r &= ev_state(x, M)
-        return r
-    if k == 'Imply':
-        return (M.S - ev_state(ks[0], M)) | ev_state(ks[1], M)
-    if k in ('A', 'E'):
-        return ev_quant(k, ks[0], M)
-    raise NotEvaluable('path operator %s where a state formula is needed' % k)
+            if not is_state_term(x):
+                raise NotEvaluable('E%s over a path formula' % k)
+        v = [self.state(x) for x in ks]
+        fair = self.fair if self.fair is not None else S
+        if k == 'X':
+            return M.pre(v[0] & fair)
+        if k == 'F':
+            return self.eu(S, v[0] & fair)
+        if k == 'G':
+            return self.fair_eg(v[0])
+        if k == 'U':
+            return self.eu(v[0], v[1] & fair)
+        if k == 'R':
+            return self.eu(v[1], v[0] & v[1] & fair) | self.fair_eg(v[1])
+        raise NotEvaluable(k)
 
 
-def ev_quant(q, p, M):
-    p = push_neg(p)
-    k = p[0]
-    if is_state_term(p):
-        return ev_state(p, M)
-    ks = p[2:]
-    if k == 'Or' and q == 'E':
-        r = frozenset()
-        for x in ks:
-            r |= ev_quant('E', x, M)
-        return r
-    if k == 'And' and q == 'A':
-        r = M.S
-        for x in ks:
-            r &= ev_quant('A', x, M)
-        return r
-    if k not in TEMPORAL:
-        raise NotEvaluable('%s over %s is not CTL-shaped' % (q, k))
-    for x in ks:
-        if not is_state_term(x):
-            raise NotEvaluable('%s%s over a path formula' % (q, k))
-    v = [ev_state(x, M) for x in ks]
-    S = M.S
-    ex = M.pre
-    ax = (lambda X: S - M.pre(S - X))
-    nx = ex if q == 'E' else ax
-    if k == 'X':
-        return nx(v[0])
-    if k == 'F':
-        return lfp(lambda Z: v[0] | nx(Z))
-    if k == 'G':
-        return gfp(lambda Z: v[0] & nx(Z), S)
-    if k == 'U':
-        return lfp(lambda Z: v[1] | (v[0] & nx(Z)))
-    if k == 'R':
-        return gfp(lambda Z: v[1] & (v[0] | nx(Z)), S)
-    raise NotEvaluable(k)
+def ev_state(t, M, F=None):
+    return Sem(M, F).state(t)
 
 
 def check_state_schema(lhs, rhs, nmax, atoms):
